@@ -16,7 +16,7 @@
 From BU Require Import Lib.Bytes CashAddr.CashAddr Base58.Base58 Bech32.Bech32 JsonPb.JsonPb.
 From BU Require Import NoPanic.Slices NoPanic.CashAddrNP NoPanic.Base58NP NoPanic.Bech32NP JsonPb.JsonPbProofs.
 From BU Require Import Gen.Nets Address.Address Wif.Wif HD.HD NoPanic.AddressNP NoPanic.WifNP NoPanic.HDNP.
-From BU Require Import Merkle.Merkle Merkle.ExtractTop NoPanic.MerkleNP Bloom.Bloom NoPanic.BloomNP.
+From BU Require Import Merkle.Merkle Merkle.ExtractTop NoPanic.MerkleNP Bloom.Bloom NoPanic.BloomNP NoPanic.BloomHistNP.
 From BU Require Import Gcs.Gcs NoPanic.GcsNP.
 From BU Require Import Bloom.BloomTx Bloom.BloomTxSpec Bloom.BloomTxInst Props.C10.
 From BU Require Import Gen.Kernels2 NoPanic.SourceNP NoPanic.AddressBoundsNP.
@@ -153,6 +153,17 @@ Theorem C08_bloom_no_panic : forall m data, within_wire_limits m ->
   is_panic (BloomNP.add_checked true (Some m) data) = false.
 Proof. exact BloomNP.bloom_no_panic. Qed.
 Print Assumptions C08_bloom_no_panic.
+
+(* ... and so does no step of any HISTORY on one filter object (round 4): whatever filter-load messages within the
+   wire limits (or nil) are loaded one after the other -- larger, smaller, empty -- with Add / AddHash /
+   AddOutPoint / Matches / MatchesOutPoint / Unload / IsLoaded between them, the history written with checked
+   division and checked indexing equals the total model: nothing derived from an earlier message survives Reload *)
+Theorem C08_bloom_history_no_panic : forall (start : option msg) ops,
+  match start with Some m => within_wire_limits m | None => True end ->
+  BloomHistNP.reloads_within_limits ops ->
+  BloomHistNP.run_checked (load_filter start) ops = Ok (run (load_filter start) ops).
+Proof. exact BloomHistNP.history_no_panic. Qed.
+Print Assumptions C08_bloom_history_no_panic.
 
 (* before commit 9cfd8f5: Filter = {}, HashFuncs = 1 divides by zero, for every data item *)
 Theorem C08_bloom_old_refuted : forall data,
